@@ -22,7 +22,7 @@ P = {
 }
 
 NOTE = ("Trusted: rustc/std, the scheduler + explorer + SchedIter wrapper (self-tested: seeded lost update found, replay determinism), the reference interpreter "
-        "(validated against real std::iter chains by `mc selftest`), the documented 2-part patch of the vendored orx-concurrent-iter. Assumes linearizable "
+        "(validated against real std::iter chains by `mc selftest`), the documented 2-part patch of the vendored orx-concurrent-iter, the textual re-pointing of synchronisation primitives (tools/rewrite_repo.py; falls back to a plain copy if the re-pointed copy does not compile). Assumes linearizable "
         "dependency primitives and sequentially consistent memory; bounds are those reported per harness in the evidence.")
 
 TECH = {
@@ -52,7 +52,7 @@ def main():
         'setup_cmd': './setup.sh',
         'hooks': {
             'guard': 'cargo feature verif-hooks',
-            'enable': 'the harness workspace /verif/mc depends on /repo by path with features = ["verif-hooks"]; cargo rebuilds it from the working tree on every check',
+            'enable': 'every check mirrors /repo\'s working tree into /verif/target/repo_va (tools/rewrite_repo.py: std::sync::atomic / std::sync::Mutex used by orx-parallel\'s own source re-pointed at scheduling points; byte-identical otherwise) and the harness workspace /verif/mc depends on that mirror by path with features = ["verif-hooks"]; cargo rebuilds whatever the working tree changed',
             'baseline_off_cmd': 'cd /repo && cargo test --workspace --no-fail-fast --offline',
             'source_commits': list(reversed(hooks)),
             'add_only': True,
